@@ -13,6 +13,16 @@ def NonPub (a : Act) : Prop := ∀ f, a = .write f → f.op.toNat ≠ OP_PUBLISH
 theorem nonPub_err : NonPub (.write errFrame) := by
   intro f h; cases h; decide
 
+/-- the actions the handlers log through `logAct` directly: an OP_ERROR write, the buffer limits,
+    effective pause/resume of reading, a crash mark, the peer-closed mark -/
+inductive Plain : Act → Prop
+  | err : Plain (.write errFrame)
+  | limits (hi : Nat) : Plain (.setLimits hi)
+
+theorem Plain.nonPub {a : Act} (h : Plain a) : NonPub a := by
+  cases h <;> intro f hf <;> cases hf
+  decide
+
 @[simp] theorem upd_conn (s : State) (c : Nat) (f : Conn → Conn) (d : Nat) :
     (s.upd c f).conn d = if d = c then (s.conn d).map f else s.conn d := rfl
 
@@ -25,45 +35,52 @@ theorem logAct_conn_self {s : State} {c : Nat} {a : Act} {x : Conn} (h : s.conn 
 
 theorem closeT_conn_self {s : State} {c : Nat} {x : Conn} (h : s.conn c = some x) :
     ∃ y, (closeT s c).conn c = some y ∧ y.registered = x.registered ∧ y.subchans = x.subchans ∧
-      y.nonce = x.nonce ∧ y.closing = true := by
+      y.nonce = x.nonce ∧ y.closing = true ∧ y.ak = x.ak := by
   simp only [closeT, upd_conn, if_true, h, Option.map_some]
   by_cases hc : x.closing = true
-  · exact ⟨_, by rw [if_pos hc], rfl, rfl, rfl, hc⟩
-  · refine ⟨_, by rw [if_neg hc], ?_, ?_, ?_, ?_⟩ <;> simp [Conn.beginClose, hc]
+  · exact ⟨_, by rw [if_pos hc], rfl, rfl, rfl, hc, rfl⟩
+  · refine ⟨_, by rw [if_neg hc], ?_, ?_, ?_, ?_, ?_⟩ <;> simp [Conn.beginClose, hc]
 
 theorem errorClose_conn_self {s : State} {c : Nat} {x : Conn} (h : s.conn c = some x) :
     ∃ y, (errorClose s c).conn c = some y ∧ y.registered = x.registered ∧ y.subchans = x.subchans ∧
-      y.nonce = x.nonce ∧ y.closing = true := by
-  obtain ⟨y, h1, h2, h3, h4, h5⟩ := closeT_conn_self (logAct_conn_self (a := .write errFrame) h)
-  exact ⟨y, h1, h2, h3, h4, h5⟩
+      y.nonce = x.nonce ∧ y.closing = true ∧ y.ak = x.ak := by
+  obtain ⟨y, h1, h2, h3, h4, h5, h6⟩ := closeT_conn_self (logAct_conn_self (a := .write errFrame) h)
+  exact ⟨y, h1, h2, h3, h4, h5, h6⟩
 
-structure Pres (cfg : Cfg) (P : State → Prop) : Prop where
-  logAct : ∀ s c a, NonPub a → P s → P (logAct s c a)
-  closeT : ∀ s c, P s → P (closeT s c)
-  crashClose : ∀ s c, P s → P (crashClose s c)
-  doSubscribe : ∀ s c ch ok x, s.conn c = some x → x.registered = true → (ok = true ↔ ch ∈ x.subchans) →
-    (ok = false → x.closing = true) → P s → P (doSubscribe s c ch ok)
-  doUnsubscribe : ∀ s c ch x, s.conn c = some x → x.registered = true → P s → P (doUnsubscribe s c ch)
-  setAuth : ∀ s c i d row x, s.conn c = some x → cfg.H (x.nonce ++ row.secret) = d → P s →
+/-- what a frame handler for connection `c` may do, primitive by primitive, with the facts available
+    where the model applies it -/
+structure PresAt (cfg : Cfg) (c : Nat) (P : State → Prop) : Prop where
+  logAct : ∀ s a, Plain a → P s → P (logAct s c a)
+  closeT : ∀ s, P s → P (closeT s c)
+  crashClose : ∀ s, P s → P (crashClose s c)
+  doSubscribe : ∀ s ch ok x, s.conn c = some x → x.registered = true → x.ak ≠ none →
+    (ok = true ↔ ch ∈ x.subchans) → (ok = false → x.closing = true) → P s → P (doSubscribe s c ch ok)
+  doUnsubscribe : ∀ s ch x, s.conn c = some x → x.registered = true → x.ak ≠ none → P s →
+    P (doUnsubscribe s c ch)
+  setAuth : ∀ s i d row x, s.conn c = some x → cfg.H (x.nonce ++ row.secret) = d → P s →
     P (setAuth s c i d row)
-  pauseReading : ∀ s c, P s → P (pauseReading s c)
-  resumeReading : ∀ s c, P s → P (resumeReading s c)
-  addPending : ∀ s c i d, P s → P (addPending s c i d)
-  dropPending : ∀ s c i, P s → P (dropPending s c i)
-  setBuf : ∀ s c b, P s → P (setBuf s c b)
-  publish : ∀ s c x i ch p, s.conn c = some x → x.ak = some i → ch ∈ x.pubchans → x.registered = true →
+  pauseReading : ∀ s, P s → P (pauseReading s c)
+  resumeReading : ∀ s, P s → P (resumeReading s c)
+  addPending : ∀ s i d, P s → P (addPending s c i d)
+  dropPending : ∀ s i, P s → P (dropPending s c i)
+  setBuf : ∀ s b, P s → P (setBuf s c b)
+  publish : ∀ s x i ch p, s.conn c = some x → x.ak = some i → ch ∈ x.pubchans → x.registered = true →
     P s → P (publish s c x i ch p)
-  addConn : ∀ s c n, s.conn c = none → P s → P (addConn cfg s c n)
-  peerClose : ∀ s c, P s → P (peerClose s c)
-  lostConn : ∀ s c x, s.conn c = some x → x.gone = false → P s → P (lostConn s c)
-  armDeadline : ∀ s c, P s → P (armDeadline s c)
-  clearDeadline : ∀ s c a, (a = .resumedW ∨ a = .deadlineFired) → P s → P (clearDeadline s c a)
+  addConn : ∀ s n, s.conn c = none → P s → P (addConn cfg s c n)
+  peerClose : ∀ s, P s → P (peerClose s c)
+  lostConn : ∀ s x, s.conn c = some x → x.gone = false → P s → P (lostConn s c)
+  armDeadline : ∀ s, P s → P (armDeadline s c)
+  clearDeadline : ∀ s a, (a = .resumedW ∨ a = .deadlineFired) → P s → P (clearDeadline s c a)
+
+/-- preserved by every primitive at every connection, and by the clock -/
+structure Pres (cfg : Cfg) (P : State → Prop) : Prop where
+  prim : ∀ c, PresAt cfg c P
   tick : ∀ s ms, P s → P (tick s ms)
 
-variable {cfg : Cfg} {P : State → Prop}
+variable {cfg : Cfg} {P : State → Prop} {c : Nat}
 
-theorem pres_errorClose (hp : Pres cfg P) (s : State) (c : Nat) (h : P s) : P (errorClose s c) :=
-  hp.closeT _ _ (hp.logAct _ _ _ nonPub_err h)
+theorem pres_errorClose (hp : PresAt cfg c P) (s : State) (h : P s) : P (errorClose s c) :=
+  hp.closeT _ (hp.logAct _ _ .err h)
 
 theorem authOk_spec {cfg : Cfg} {x : Conn} {d : Bytes} {r : Lookup} {row : Row}
     (h : authOk cfg x d r = some row) : r = .row row ∧ cfg.H (x.nonce ++ row.secret) = d := by
@@ -76,28 +93,87 @@ theorem authOk_spec {cfg : Cfg} {x : Conn} {d : Bytes} {r : Lookup} {row : Row}
   | missing => simp [authOk] at h
   | raised => simp [authOk] at h
 
-theorem pres_authenticate (hp : Pres cfg P) (s : State) (c : Nat) (x x0 : Conn) (i d : Bytes) (r : Lookup)
+theorem pres_authenticate (hp : PresAt cfg c P) (s : State) (x x0 : Conn) (i d : Bytes) (r : Lookup)
     (hx : s.conn c = some x0) (hn : x0.nonce = x.nonce) (h : P s) :
     P (authenticate cfg s c x i d r).1 := by
   unfold authenticate
   split
   · rename_i row hok
     have := (authOk_spec hok).2
-    refine hp.logAct _ _ _ (by intro f hf; cases hf) (hp.setAuth _ _ _ _ _ x0 hx (by rw [hn]; exact this) h)
-  · exact pres_errorClose hp _ _ h
+    exact hp.logAct _ _ (.limits _) (hp.setAuth _ _ _ _ x0 hx (by rw [hn]; exact this) h)
+  · exact pres_errorClose hp _ h
 
-theorem pres_messageReceived (hp : Pres cfg P) (s : State) (c : Nat) (f : Frame) (h : P s) :
+def msgOpcode : Msg → Nat
+  | .error _ => OP_ERROR | .info _ _ => OP_INFO | .auth _ _ => OP_AUTH
+  | .publish _ _ _ => OP_PUBLISH | .subscribe _ _ => OP_SUBSCRIBE | .unsubscribe _ _ => OP_UNSUBSCRIBE
+
+/-- which opcode a successfully read message came from -/
+theorem read_op {f : Frame} {m : Msg} (h : read f = some (.ok m)) : f.op.toNat = msgOpcode m := by
+  unfold read at h
+  split at h
+  · rename_i h0
+    simp only [Option.some.injEq] at h
+    cases hfs : forceStr f.body with
+    | error e => simp [hfs, bind, Except.bind] at h
+    | ok v => simp [hfs, bind, Except.bind] at h; subst h; exact h0
+  · split at h
+    · rename_i h1
+      simp only [Option.some.injEq] at h
+      cases hs : strunpack8 f.body with
+      | error e => simp [hs, bind, Except.bind] at h
+      | ok v => simp [hs, bind, Except.bind] at h; subst h; exact h1
+    · split at h
+      · rename_i h2
+        simp only [Option.some.injEq] at h
+        cases hs : strunpack8 f.body with
+        | error e => simp [hs, bind, Except.bind] at h
+        | ok v => simp [hs, bind, Except.bind] at h; subst h; exact h2
+      · split at h
+        · rename_i h3
+          simp only [Option.some.injEq] at h
+          cases hs : strunpack8 f.body with
+          | error e => simp [hs, bind, Except.bind] at h
+          | ok v =>
+            cases hs2 : strunpack8 v.2 with
+            | error e => simp [hs, hs2, bind, Except.bind] at h
+            | ok w => simp [hs, hs2, bind, Except.bind] at h; subst h; exact h3
+        · split at h
+          · rename_i h4
+            simp only [Option.some.injEq] at h
+            cases hs : strunpack8 f.body with
+            | error e => simp [hs, bind, Except.bind] at h
+            | ok v =>
+              cases hs2 : forceStr v.2 with
+              | error e => simp [hs, hs2, bind, Except.bind] at h
+              | ok w => simp [hs, hs2, bind, Except.bind] at h; subst h; exact h4
+          · split at h
+            · rename_i h5
+              simp only [Option.some.injEq] at h
+              cases hs : strunpack8 f.body with
+              | error e => simp [hs, bind, Except.bind] at h
+              | ok v =>
+                cases hs2 : forceStr v.2 with
+                | error e => simp [hs, hs2, bind, Except.bind] at h
+                | ok w => simp [hs, hs2, bind, Except.bind] at h; subst h; exact h5
+            · cases h
+
+theorem pres_messageReceived (hp : PresAt cfg c P) (s : State) (f : Frame) (h : P s) :
     P (messageReceived cfg s c f).1 := by
   unfold messageReceived
   split
   · exact h
   · rename_i x hx
     split
-    · exact pres_errorClose hp _ _ h
-    · split
-      · exact hp.closeT _ _ h
+    · exact pres_errorClose hp _ h
+    · rename_i hpre
+      split
+      · exact hp.closeT _ h
       · exact h
-      · rename_i m _
+      · rename_i m hm
+        have hop := read_op hm
+        have hne : ∀ (a b : Bytes), m = .subscribe a b ∨ m = .unsubscribe a b → f.op.toNat ≠ OP_AUTH := by
+          intro a b hab
+          rcases hab with rfl | rfl <;> (rw [hop]; simp only [msgOpcode]; decide)
         cases m with
         | error t => exact h
         | info n r => exact h
@@ -106,87 +182,110 @@ theorem pres_messageReceived (hp : Pres cfg P) (s : State) (c : Nat) (f : Frame)
           split
           · exact h
           · split
-            · exact pres_authenticate hp _ _ _ x _ _ _ hx rfl h
-            · exact hp.pauseReading _ _ (hp.addPending _ _ _ _ h)
+            · exact pres_authenticate hp _ x _ _ _ _ hx rfl h
+            · exact hp.pauseReading _ (hp.addPending _ _ _ h)
         | publish ident ch p =>
           simp only
           split
-          · exact pres_errorClose hp _ _ h
+          · exact pres_errorClose hp _ h
           · split
-            · exact pres_errorClose hp _ _ h
+            · exact pres_errorClose hp _ h
             · split
               · exact h
               · rename_i h1 h2 h3
-                refine hp.publish _ _ _ _ _ _ hx ?_ ?_ ?_ h
+                refine hp.publish _ _ _ _ _ hx ?_ ?_ ?_ h
                 · simp only [ne_eq, Decidable.not_not] at h1; exact h1.symm
                 · simpa using h2
                 · simpa using h3
         | subscribe ident ch =>
+          have hak : x.ak ≠ none := by
+            intro hk; exact hpre ⟨hk, hne _ _ (Or.inl rfl)⟩
           simp only
           by_cases hsub : ch ∈ x.subchans
           · simp only [hsub, if_true]
             split
             · exact h
             · rename_i hreg
-              exact hp.doSubscribe _ _ _ _ x hx (by simpa using hreg) (by simp [hsub]) (by simp [hsub]) h
+              exact hp.doSubscribe _ _ _ x hx (by simpa using hreg) hak (by simp [hsub]) (by simp [hsub]) h
           · simp only [hsub, if_false]
             split
-            · exact pres_errorClose hp _ _ h
+            · exact pres_errorClose hp _ h
             · rename_i hreg
-              obtain ⟨y, hy, hr, hs, _, hc⟩ := errorClose_conn_self hx
-              refine hp.doSubscribe _ _ _ _ y hy ?_ ?_ ?_ (pres_errorClose hp _ _ h)
+              obtain ⟨y, hy, hr, hs, _, hc, hk⟩ := errorClose_conn_self hx
+              refine hp.doSubscribe _ _ _ y hy ?_ ?_ ?_ ?_ (pres_errorClose hp _ h)
               · rw [hr]; simpa using hreg
+              · rw [hk]; exact hak
               · rw [hs]; simp [hsub]
               · intro _; exact hc
         | unsubscribe ident ch =>
+          have hak : x.ak ≠ none := by
+            intro hk; exact hpre ⟨hk, hne _ _ (Or.inr rfl)⟩
           simp only
           split
           · exact h
           · rename_i hreg
-            exact hp.doUnsubscribe _ _ _ x hx (by simpa using hreg) h
+            exact hp.doUnsubscribe _ _ x hx (by simpa using hreg) hak h
 
-theorem pres_loop (hp : Pres cfg P) (c : Nat) (s : State) (buf : Bytes) (h : P s) :
+theorem pres_loop (hp : PresAt cfg c P) (s : State) (buf : Bytes) (h : P s) :
     P (loop cfg c s buf).1 := by
   induction hn : buf.length using Nat.strongRecOn generalizing s buf with
   | _ n ih =>
     rw [loop]
     split
     · exact h
-    · exact hp.closeT _ _ h
+    · exact hp.closeT _ h
     · rename_i ml op hh
       have hk := header_ok hh
-      have hm := pres_messageReceived hp s c (popFrame buf ml op).1 h
+      have hm := pres_messageReceived hp s (popFrame buf ml op).1 h
       simp only
       split
       · exact ih _ (by simp only [popFrame, List.length_drop]; omega) _ _ hm rfl
       · exact hm
 
-theorem pres_step (hp : Pres cfg P) (s : State) (e : Event) (h : P s) : P (step cfg s e) := by
+/-- the connection an event is about -/
+def Event.target : Event → Option Nat
+  | .connect c _ => some c
+  | .data c _ => some c
+  | .eof c => some c
+  | .lost c => some c
+  | .lookupDone c _ _ => some c
+  | .pause c => some c
+  | .resume c => some c
+  | .fire c => some c
+  | .advance _ => none
+
+/-- one event only needs preservation by the primitives at its own target connection -/
+theorem pres_step_at (s : State) (e : Event) (hp : ∀ c, e.target = some c → PresAt cfg c P)
+    (ht : ∀ s ms, P s → P (tick s ms)) (h : P s) : P (step cfg s e) := by
   cases e with
   | connect c nonce =>
+    have hp := hp c rfl
     simp only [step]
     split
     · exact h
-    · rename_i hc; exact hp.addConn _ _ _ hc h
+    · rename_i hc; exact hp.addConn _ _ hc h
   | data c b =>
+    have hp := hp c rfl
     simp only [step]
     split
     · exact h
     · rename_i x hx
-      have := hp.setBuf _ c (loop cfg c s (x.buf ++ b)).2.1 (pres_loop hp c s (x.buf ++ b) h)
+      have := hp.setBuf _ (loop cfg c s (x.buf ++ b)).2.1 (pres_loop hp s (x.buf ++ b) h)
       split
-      · exact hp.crashClose _ _ this
+      · exact hp.crashClose _ this
       · exact this
-  | eof c => exact hp.peerClose _ _ h
+  | eof c => exact (hp c rfl).peerClose _ h
   | lost c =>
+    have hp := hp c rfl
     simp only [step]
     split
     · exact h
     · rename_i x hx
       split
       · exact h
-      · rename_i hg; exact hp.lostConn _ _ x hx (by simpa using hg) h
+      · rename_i hg; exact hp.lostConn _ x hx (by simpa using hg) h
   | lookupDone c i r =>
+    have hp := hp c rfl
     simp only [step]
     split
     · exact h
@@ -194,37 +293,42 @@ theorem pres_step (hp : Pres cfg P) (s : State) (e : Event) (h : P s) : P (step 
       split
       · exact h
       · rename_i ident digest _
-        have h0 := hp.dropPending s c i h
+        have h0 := hp.dropPending s i h
         have hx0 : (dropPending s c i).conn c = some { x with pending := x.pending.eraseIdx i } := by
           simp [dropPending, hx]
-        have ha := pres_authenticate hp (dropPending s c i) c x _ ident digest r hx0 rfl h0
+        have ha := pres_authenticate hp (dropPending s c i) x _ ident digest r hx0 rfl h0
         split
-        · have hl := hp.setBuf _ c (loop cfg c (authenticate cfg (dropPending s c i) c x ident digest r).1 x.buf).2.1
-            (pres_loop hp c _ x.buf ha)
+        · have hl := hp.setBuf _ (loop cfg c (authenticate cfg (dropPending s c i) c x ident digest r).1 x.buf).2.1
+            (pres_loop hp _ x.buf ha)
           split
-          · exact hp.closeT _ _ hl
+          · exact hp.closeT _ hl
           · split
             · exact hl
-            · exact hp.resumeReading _ _ hl
+            · exact hp.resumeReading _ hl
         · exact ha
-  | pause c => exact hp.armDeadline _ _ h
+  | pause c => exact (hp c rfl).armDeadline _ h
   | resume c =>
+    have hp := hp c rfl
     simp only [step]
     split
     · exact h
     · split
-      · exact hp.clearDeadline _ _ _ (Or.inl rfl) h
+      · exact hp.clearDeadline _ _ (Or.inl rfl) h
       · exact h
   | fire c =>
+    have hp := hp c rfl
     simp only [step]
     split
     · exact h
     · split
       · exact h
       · split
-        · exact pres_errorClose hp _ _ (hp.clearDeadline _ _ _ (Or.inr rfl) h)
+        · exact pres_errorClose hp _ (hp.clearDeadline _ _ (Or.inr rfl) h)
         · exact h
-  | advance ms => exact hp.tick _ _ h
+  | advance ms => exact ht _ _ h
+
+theorem pres_step (hp : Pres cfg P) (s : State) (e : Event) (h : P s) : P (step cfg s e) :=
+  pres_step_at s e (fun c _ => hp.prim c) hp.tick h
 
 /-- the induction principle: `P` holds after every event history -/
 theorem pres_run (hp : Pres cfg P) (h0 : P init) (es : List Event) : P (run cfg es) := by
@@ -234,7 +338,7 @@ theorem pres_run (hp : Pres cfg P) (h0 : P init) (es : List Event) : P (run cfg 
   | nil => intro s h; exact h
   | cons e es ih => intro s h; exact ih _ (pres_step hp s e h)
 
-/-- and along the way: after every prefix -/
+/-- and along the way: after every continuation -/
 theorem pres_run_from (hp : Pres cfg P) (s : State) (h : P s) (es : List Event) :
     P (es.foldl (step cfg) s) := by
   induction es generalizing s with
